@@ -45,6 +45,7 @@ def specHandler : Handler → Req → Trace → Res
   | .pass id, r, t => .cont r (t ++ [ev id r])
   | .respond id st, r, t => .stop (.done (t ++ [ev id r]) (some st))
   | .rewrite id p, r, t => .cont { r with path := p, uri := p } (t ++ [ev id r])
+  | .strip, r, t => .cont { r with path := stripPath r.path, uri := requestLineOf (stripPath r.path) } t
   | .fail id st, r, t => .stop (.err (t ++ [ev id r]) st r)
   | .raise src, r, t => .stop (.err t (raiseStatus src r) r)
   | .invoke _, r, t => .stop (.err t 0 r)
